@@ -975,6 +975,7 @@ class ExecComp(ExplicitComponent):
 
         # compute perturbations
         starting_inputs = self._inputs.asarray(copy=not self._relcopy)
+        starting_outputs = None if self._relcopy else oarr.copy()
         in_offsets = starting_inputs.copy()
         in_offsets[in_offsets == 0.0] = 1.0
         in_offsets *= info['perturb_size']
@@ -993,6 +994,7 @@ class ExecComp(ExplicitComponent):
 
         if not self._relcopy:
             self._inputs.set_val(starting_inputs)
+            oarr[:] = starting_outputs
 
         sparsity, sp_info = jac.get_sparsity()
         sparsity_time = time.perf_counter() - sparsity_start_time
@@ -1084,6 +1086,26 @@ class ExecComp(ExplicitComponent):
                                "level system is using complex step unless you manually call "
                                "declare_partials and/or declare_coloring on this ExecComp.")
 
+        if not self._relcopy:
+            # The complex steps are taken in the arrays of the output Vector itself: its values
+            # (states of an enclosing solver, values set by the user) must survive them.
+            saved_outputs = self._outarray.copy()
+            try:
+                self._compute_partials_cs(partials)
+            finally:
+                self._outarray[:] = saved_outputs
+        else:
+            self._compute_partials_cs(partials)
+
+    def _compute_partials_cs(self, partials):
+        """
+        Use complex step method to update the given Jacobian.
+
+        Parameters
+        ----------
+        partials : `Jacobian`
+            Contains sub-jacobians.
+        """
         if self._coloring_info.coloring is not None:
             self._compute_colored_partials(partials)
             return
